@@ -181,6 +181,12 @@ def run(ctx):
     from .C20_reg import compared_literals
 
     ctx.ob("R-REG", "C07.2", post, "post-rescalings that need the unit interval are exactly the registered names logit / log", compared_literals(post.node, "post_rescaling") == {"logit", "log"} and {"logit", "log"} <= set(pairs), "")
+    # an option string is compared under one normalisation (a name that is looked up case-insensitively is not tested raw)
+    from ..rules import optnorm as _on
+    _hits = _on.scan(prog)
+    ctx.require(len(_hits) >= 1, "no comparison of a case-normalised option string found (configure_post_rescaling expected)")
+    for _f, _n, _ok, _why in _hits:
+        ctx.ob("R-NORM", "C07.2", _f, "an option that is looked up case-insensitively is compared with its literal values under the same normalisation", _ok, _why, node=_n)
     ctx.floor("C07.2", 60)
 
     # ---- C07.3 Jacobian accumulation discipline ------------------------------------------
